@@ -43,7 +43,13 @@ static std::vector<uint8_t> payload_for(Rng &r, uint8_t type) {
 		case MSG_BM_ADDRESS: { d.push_back(r.byte()); size_t n = (size_t) r.below(4); rnd(n * 2); break; }
 		case MSG_BOOST_STAT: { static const uint8_t st[] = {0, 1, 2, 3, 4, 5, 6, 0x80, 0x81, 0x82, 0x84}; d.push_back(st[r.below(11)]); break; }
 		case MSG_CS_DRIVE_EVENT: d.push_back((uint8_t) r.below(3)); rnd((size_t) r.below(4)); break;
-		case MSG_SYS_ERROR: { d.push_back((uint8_t) r.below(0x32)); d.push_back((uint8_t) r.below(9)); break; }
+		case MSG_SYS_ERROR: {
+			// codes without a parameter byte (none, overrun, reset required, no secure-ack by host) are sent as the spec defines them: one data byte
+			static const uint8_t bare[] = {0x00, 0x16, 0x21, 0x30};
+			if (r.chance(350)) d.push_back(bare[r.below(4)]);
+			else { d.push_back((uint8_t) r.below(0x32)); d.push_back((uint8_t) r.below(9)); }
+			break;
+		}
 		case MSG_PKT_CAPACITY: d.push_back((uint8_t) r.range(64, 255)); break;
 		case MSG_CS_STATE: { static const uint8_t st[] = {0, 1, 2, 3, 4, 8, 9, 0x0D, 0xFF}; d.push_back(st[r.below(9)]); break; }
 		case MSG_BM_OCC: case MSG_BM_FREE: case MSG_NODETAB_COUNT: rnd(1); break;
